@@ -20,3 +20,15 @@ Definition judge_docs (k : cfg * list str * list (str * list str * list str) * (
             | inr _ => true
             end in
   verdict (negb (res_eqb (read_all c lines) impl)) sp 0.
+
+(* the same for a fixed-form file (read through the converter, model Lex/Fixed.v):
+   (markers, length limit, fixed-form lines with their newlines, items, impl) *)
+From Ford Require Import Lex.Fixed.
+
+Definition judge_docs_fixed (k : cfg * bool * list str * list (str * list str * list str) * (list str + nat)) : nat :=
+  let '(c, ll, lines, items, impl) := k in
+  let sp := match impl with
+            | inl outs => negb (list_eqb str_eqb (drop_empty_docs c outs) (expected_out c items))
+            | inr _ => true
+            end in
+  verdict (negb (res_eqb (read_all c (map chomp (convert_to_free ll lines))) impl)) sp 0.
